@@ -35,7 +35,6 @@ def proj(st):
     # variable while it exists, and the public view gen.value() of the item the body is parked at
     pay = st["pay"]
     d["cp"] = pay["cp"]
-    d["mv"] = pay["mv"]
     d["aops"] = 0
     body_var = st["bst"] in ("yield", "await")
     d["var"] = {"id": pay["var"] if body_var else 0, "m": pay["moved"] if body_var else False}
@@ -45,13 +44,13 @@ def proj(st):
 
 def key_fn(sid, line, txt):
     """stable key of a divergence: it++ moving the item out of the yielded object (instead of copying it) is
-    recognised by what diverged -- at a post-increment the implementation made a move construction the
-    specification does not have"""
+    recognised by what diverged -- at a post-increment the implementation made no copy of the item (and the body's
+    variable, if that was the item, is gutted)"""
     m = re.search(r'action=NextSync\("postinc"\) expected=(\{.*\}) got=(\{.*\})$', line)
     if m:
         try:
             e, g = json.loads(m.group(1)), json.loads(m.group(2))
-            if g.get("mv", 0) > e.get("mv", 0):
+            if g.get("cp", 0) < e.get("cp", 0):
                 return KEY_POSTINC
         except ValueError:
             pass
